@@ -177,11 +177,19 @@ package bitswap
 // flight is one atomic step (LoadOrStore): with a separate look-up and store two concurrent fetches would
 // both consider themselves the original, and the one whose entry was overwritten would take its block
 // for "populated by the hasher" although no verifier of its own ever ran.
+// A duplicate's block is filled here, by its own verifying unmarshal, and only here: when that fails
+// ($DupFailed) the block stays empty, so the fetch ends with an error - it is never reported as success.
+//@ extern github.com/celestiaorg/celestia-node/share/shwap/p2p/bitswap.unmarshal
+//@   effect $DupFailed := $DupFailed || err != nil
 //@ func fetch
 //@   property C06 C10
 //@   noframe
 //@   nopanic
+//@   requires !$DupFailed
+//@   havoc $DupFailed $Deleted
 //@   only sync.Map).: LoadOrStore Delete
+//@   ensures $DupFailed ==> err != nil
+//@   loop 3: invariant !$DupFailed
 
 // ---------------------------------------------------------------------------------------------
 // C06: the Bitswap getter. Each method builds the empty blocks of exactly what it was asked for - the
